@@ -152,14 +152,14 @@ def linear_entries(c, x):
     x = LD(x)
     if x < cl[0]:
         h = cl[1] - cl[0]
-        if x < cl[0] - h:
+        if x < cl[0] - h - 8 * EPS * max(abs(x), abs(cl[0]), abs(cl[1])):
             raise OutOfRange('more than one cell below the grid')
         t = (x - (cl[0] - h)) / h
         ent = [(0, t)]
         ref_nodes = (cl[0], cl[1])
     elif x > cl[-1]:
         h = cl[-1] - cl[-2]
-        if x > cl[-1] + h:
+        if x > cl[-1] + h + 8 * EPS * max(abs(x), abs(cl[-1]), abs(cl[-2])):
             raise OutOfRange('more than one cell above the grid')
         t = (x - cl[-1]) / h
         ent = [(n - 1, 1 - t)]
